@@ -2093,6 +2093,11 @@ class _ChunkedTransferDecoder:
 
         # eolIndex in this part of code is equal to 0
 
+        # The CRLF which terminates the trailer section counts towards the
+        # size limit, exactly as it is counted above while it is incomplete.
+        if self._receivedTrailerHeadersSize + 2 > self._maxTrailerHeadersSize:
+            raise _MalformedChunkedDataError("Trailer headers data is too long.")
+
         data = memoryview(self._buffer)[2:].tobytes()
 
         del self._buffer[:]
